@@ -1,4 +1,4 @@
-import CardVerif.Spec.Symmetry
+import CardModel.Spec.Symmetry
 import CardVerif.Props.C12
 import CardVerif.Props.C19
 import CardVerif.Proofs.SymGin2
